@@ -354,6 +354,10 @@ def gen_probes(r: random.Random, w: World) -> None:
                 times = sorted(set(starts + [x - 1 for x in starts if x > 0] + [total - 1, total]))
             else:
                 times = [total + 5, total + 50]  # never reached
+            if times and r.random() < 0.15:
+                # a time list with a repeated entry
+                times = times + [r.choice(times)]
+                r.shuffle(times)
             h = {"kind": kind, "before": before, "times": times}
             if kind == "market":
                 v = r.random()
